@@ -12,7 +12,8 @@ sv = VerusUnit("c13_single_via", "c13_single_via", rlimit=60, paired_kani=(wit, 
 dp = VerusUnit("c01_dispatch", "c01_dispatch", rlimit=60)
 app = VerusUnit("c11_instance", "c11_instance", rlimit=30)
 yr = VerusUnit("c13_yen_run", "c13_yen_run", rlimit=60, paired_kani=(wit, []))
-UNITS = [al, bt, eo, dp, sv, yr, app, wit]
+ke = VerusUnit("c01_ksp_edge_oriented", "c01_ksp_edge_oriented", rlimit=60, paired_kani=(wit, []))
+UNITS = [ke, al, bt, eo, dp, sv, yr, app, wit]
 EXPLANATION = ("run_a_star / advance_search / get_last_traversed_edge_id / Direction::{tree_key_vertex_id, terminal_vertex_id} extracted verbatim; "
                "loop invariants TW (entry edge joins parent to entry in the search direction), DOM, POT (labels strictly decrease along parents) "
                "verified for every graph, direction and model configuration satisfying the assumed callee contracts; no-revisit lemma; "
